@@ -121,6 +121,10 @@ type captureFormat struct {
 	count     int
 	// also record the four output forms of each message
 	full bool
+	// parallel mode without any synchronisation of the harness's own between the workers (a lock here
+	// would order the workers' accesses and hide data races from the race detector): goroutine id ->
+	// that worker's private buffer; the map is built before the workers are released and only read after
+	slots map[int]*[]string
 }
 
 func (c *captureFormat) Format(data interface{}) ([]byte, []byte, error) {
@@ -138,6 +142,13 @@ func (c *captureFormat) Format(data interface{}) ([]byte, []byte, error) {
 	var extra []string
 	if c.full && ok {
 		extra = fmtLines(m)
+	}
+	if c.slots != nil {
+		if p := c.slots[goid()]; p != nil {
+			*p = append(*p, line)
+			*p = append(*p, extra...)
+		}
+		return nil, nil, nil
 	}
 	c.mu.Lock()
 	if extra != nil {
@@ -350,57 +361,60 @@ func opPar(st *state, args []string) []string {
 	}
 	outs := make([]out, len(l))
 	caps := map[*captureFormat]bool{}
-	for _, s := range l {
+	pes := make([]*pipeEntry, len(l))
+	for i, s := range l {
 		pe, ok := st.extra["pipe:"+s.pipe].(*pipeEntry)
 		if !ok {
 			return []string{"bad-op"}
 		}
 		caps[pe.cap] = true
+		pes[i] = pe
 	}
-	for c := range caps {
-		c.mu.Lock()
-		c.byGoid = map[int][]string{}
-		c.mu.Unlock()
-	}
-	var wg sync.WaitGroup
-	next := make(chan int, len(l))
-	for i := range l {
-		next <- i
-	}
-	close(next)
+	// workers report their goroutine ids, the coordinator builds the read-only slot map, then releases
+	// them all at once; datagram i goes to worker i % g; nothing of the harness synchronises the
+	// workers with each other while they decode
+	ids := make([]int, g)
+	bufs := make([][]string, g)
+	var ready, wg sync.WaitGroup
+	start := make(chan struct{})
 	for w := 0; w < g; w++ {
+		ready.Add(1)
 		wg.Add(1)
 		go func(w int) {
 			defer wg.Done()
-			me := goid()
-			for i := range next {
-				pe := st.extra["pipe:"+l[i].pipe].(*pipeEntry)
+			ids[w] = goid()
+			ready.Done()
+			<-start
+			for i := w; i < len(l); i += g {
 				if (i+w)%3 == 0 {
 					runtime.Gosched()
 				}
-				pe.cap.mu.Lock()
-				pe.cap.byGoid[me] = nil
-				pe.cap.mu.Unlock()
+				before := len(bufs[w])
 				func() {
 					defer func() {
 						if r := recover(); r != nil {
 							outs[i].res = "panic"
 						}
 					}()
-					e := pe.pipe.DecodeFlow(l[i].msg)
+					e := pes[i].pipe.DecodeFlow(l[i].msg)
 					outs[i].res = strings.TrimPrefix(classify(e), "res ")
 				}()
-				pe.cap.mu.Lock()
-				outs[i].lines = append([]string{}, pe.cap.byGoid[me]...)
-				pe.cap.mu.Unlock()
+				outs[i].lines = append([]string{}, bufs[w][before:]...)
 			}
 		}(w)
 	}
+	ready.Wait()
+	slots := map[int]*[]string{}
+	for w := 0; w < g; w++ {
+		slots[ids[w]] = &bufs[w]
+	}
+	for c := range caps {
+		c.slots = slots
+	}
+	close(start)
 	wg.Wait()
 	for c := range caps {
-		c.mu.Lock()
-		c.byGoid = nil
-		c.mu.Unlock()
+		c.slots = nil
 	}
 	lines := []string{fmt.Sprintf("res ok n=%d", len(l))}
 	for i, o := range outs {
